@@ -108,6 +108,7 @@ class C11(Prop):
             ops = gen.gen_ops(rnd, kn, 20)
         else:
             rnd._nel = rnd.random() < 0.03      # the known third-party loss (K5) is visited, but rarely
+            rnd._empty_event = rnd.random() < 0.03      # … and so is the event named '' (K6)
             sc = self.hostile_chart(rnd)
             ops = []
         history = None
@@ -200,7 +201,8 @@ class C11(Prop):
         owners = [n for n in sc.states if isinstance(sc.state_for(n), (BasicState, CompoundState, OrthogonalState))]
         for _ in range(rnd.randint(0, 2 * len(owners))):
             t = Transition(rnd.choice(owners), rnd.choice([None] + sc.states),
-                           event=rnd.choice([None, hostile(rnd, no_outer_space=rnd.random() < 0.9)]),
+                           event=('' if getattr(rnd, '_empty_event', False) and rnd.random() < 0.3 else
+                                  rnd.choice([None, hostile(rnd, no_outer_space=rnd.random() < 0.9)])),
                            guard=code(), action=code(),
                            priority=rnd.choice([0, 0, 1, -1, 2, -7, 100]))
             contracts(t)
@@ -363,6 +365,8 @@ class C11(Prop):
         sig = finding.get('signature')
         if sig == 'nel':
             return any(s and '\x85' in s for s in strings + events)
+        if sig == 'event-empty':
+            return any(e == '' for e in events) and all('event' in v or 'transition' in v for v in res.violations)
         if sig == 'event-whitespace':
             return any(e is not None and (e != e.strip()) for e in events) and \
                 all('event' in v or 'transition' in v for v in res.violations)
